@@ -61,6 +61,44 @@ pub fn normalise(s: &str) -> String {
     out
 }
 
+/// start time (ms since process start, +1) of the case in progress, 0 when idle
+static CASE_STARTED_MS: std::sync::atomic::AtomicU64 = std::sync::atomic::AtomicU64::new(0);
+static CASE_NAME: std::sync::Mutex<String> = std::sync::Mutex::new(String::new());
+
+/// A helper thread that ends the process (exit code 124) when one case runs for longer than
+/// JBV_WATCHDOG_S seconds (default 60; thousands of times a normal case). This is not a
+/// verdict: the orchestrator re-runs that case alone with a much larger limit first.
+pub fn start_case_watchdog() {
+    let limit_s: u64 = std::env::var("JBV_WATCHDOG_S").ok().and_then(|s| s.parse().ok()).unwrap_or(60);
+    let t0 = std::time::Instant::now();
+    std::thread::spawn(move || loop {
+        std::thread::sleep(std::time::Duration::from_millis(500));
+        let started = CASE_STARTED_MS.load(std::sync::atomic::Ordering::Relaxed);
+        if started != 0 {
+            let now = t0.elapsed().as_millis() as u64 + 1;
+            if now.saturating_sub(started) > limit_s * 1000 {
+                let name = CASE_NAME.lock().map(|s| s.clone()).unwrap_or_default();
+                eprintln!("WATCHDOG: case {} has been running for more than {} s; ending this process", name, limit_s);
+                std::process::exit(124);
+            }
+        }
+    });
+    WATCHDOG_T0.get_or_init(|| t0);
+}
+static WATCHDOG_T0: std::sync::OnceLock<std::time::Instant> = std::sync::OnceLock::new();
+
+fn case_begin(name: &str) {
+    if let Some(t0) = WATCHDOG_T0.get() {
+        if let Ok(mut n) = CASE_NAME.lock() {
+            *n = name.to_string();
+        }
+        CASE_STARTED_MS.store(t0.elapsed().as_millis() as u64 + 1, std::sync::atomic::Ordering::Relaxed);
+    }
+}
+fn case_end() {
+    CASE_STARTED_MS.store(0, std::sync::atomic::Ordering::Relaxed);
+}
+
 thread_local! {
     static LAST_PANIC: RefCell<Option<PanicRecord>> = const { RefCell::new(None) };
 }
@@ -235,7 +273,9 @@ impl Ctx {
             let mut rng = Rng::new(mix(&[s, hp, hs, idx as u64]));
             self.logline(&format!("BEGIN {} {}", sub, idx));
             self.rep.evaluations += 1;
+            case_begin(&format!("{}/{}", sub, idx));
             let r = guard(|| f(self, &mut rng, idx));
+            case_end();
             if let Err(p) = r {
                 if p.in_target() {
                     let sig = p.sig();
